@@ -13,6 +13,7 @@ import MajoranaVerif.Model.SeqMachine
 import MajoranaVerif.Model.Mvp3
 import MajoranaVerif.Model.Mvp4
 import MajoranaVerif.Model.Mvp5
+import MajoranaVerif.Model.Mvp60Fast
 
 namespace Driver.Run
 
@@ -51,6 +52,31 @@ def showHalt : Option Model.Seq.Halt → String
   | some .err => "err"
   | some (.panic _) => "panic"
 
+/-- FNV-1a over the bytes of a string (the tie of `m60pK` hashes the printed registers and the memory hash, so
+that `checklib/cpucheck.py` can compare the model's final state with the Go machine's also when both are wrong) -/
+def fnvStr (s : String) : UInt64 :=
+  s.toUTF8.foldl (fun h b => (h ^^^ b.toUInt64) * 1099511628211) 14695981039346656037
+
+/-- which parallelisms of the MVP-6.0 model are evaluated: 1 and 2 by default (3 and 4 behave like 2 on almost every
+case and would make the quick tier a third slower), all four when `VERIF_TIER=thorough` or `VERIF_M60=all` -/
+initialize m60Pars : List Nat ← do
+  let tier ← IO.getEnv "VERIF_TIER"
+  let opt ← IO.getEnv "VERIF_M60"
+  return if tier == some "thorough" || opt == some "all" then [1, 2, 3, 4] else if opt == some "none" then [] else [1, 2]
+
+/-- the cycle-accurate model of MVP-6.0 (`Model.Mvp60`) with eu = wu = 1..4:
+` m60pK=<halt>,<cycles>,<same|DIFF>,<ticks>,<digest of final registers and memory>` -/
+def m60Suffix (app : Model.Seq.App) (ctx : Model.Context) (spec : Spec.Result) : String :=
+  let fuel := 32 * Gen.Latency.MemoryAccess.toNat * (spec.steps + 64)
+  let one (k : Nat) : String :=
+    let r := Model.Mvp60.runFast app ctx k k fuel
+    let fr := (List.range 32).map fun j => GoInt.GoMap.get1 r.final.ctx.Registers j
+    let same := fr == spec.final.regs.toList && r.final.ctx.Memory == spec.final.mem.toList
+    let cyc := match r.halt with | some .err => 0 | _ => r.final.cycles
+    let dig := fnvStr (",".intercalate (fr.map showI32) ++ ";" ++ hex16 (fnv64 r.final.ctx.Memory.toArray))
+    s!" m60p{k}={showHalt r.halt},{cyc},{if same then "same" else "DIFF"},{r.ticks},{hex16 dig}"
+  "".intercalate (m60Pars.map one)
+
 /-- the cycle-accurate models of MVP-1 and MVP-2 on the same case: how the run ends, the cycle count,
 and whether the final registers and memory equal the specification's (`same`/`DIFF`) -/
 def seqModels (progBytes : List UInt8) (regs : Array (BitVec 32)) (mem : Array (BitVec 8)) (fuel : Nat)
@@ -77,7 +103,7 @@ def seqModels (progBytes : List UInt8) (regs : Array (BitVec 32)) (mem : Array (
       let same := fr == spec.final.regs.toList && r.final.ctx.Memory == spec.final.mem.toList
       let cyc := match r.halt with | some .err => 0 | _ => r.final.cycles
       s!"{showHalt r.halt},{cyc},{r.final.executed},{if same then "same" else "DIFF"}"
-    s!"m1={one (Model.Seq.runMvp1 app ⟨ctx, 0⟩ fuel)} m2={one (Model.Seq.runMvp2 app ⟨ctx, 0⟩ fuel)} m3={one (Model.Mvp3.runMvp3 app ⟨ctx, 0⟩ fuel).toSeq} h3={if Model.Mvp3.wfAccesses app ⟨ctx, 0⟩ fuel then 1 else 0} m4={one4 (Model.Mvp4.run app ctx (32 * Gen.Latency.MemoryAccess.toNat * (spec.steps + 64)))} m5={one5 (Model.Mvp5.run app ctx (32 * Gen.Latency.MemoryAccess.toNat * (spec.steps + 64)))}"
+    s!"m1={one (Model.Seq.runMvp1 app ⟨ctx, 0⟩ fuel)} m2={one (Model.Seq.runMvp2 app ⟨ctx, 0⟩ fuel)} m3={one (Model.Mvp3.runMvp3 app ⟨ctx, 0⟩ fuel).toSeq} h3={if Model.Mvp3.wfAccesses app ⟨ctx, 0⟩ fuel then 1 else 0} m4={one4 (Model.Mvp4.run app ctx (32 * Gen.Latency.MemoryAccess.toNat * (spec.steps + 64)))} m5={one5 (Model.Mvp5.run app ctx (32 * Gen.Latency.MemoryAccess.toNat * (spec.steps + 64)))}{m60Suffix app ctx spec}"
 
 /-- `run id ; family=.. fuel=N memsize=M ; regs=r:v,.. ; mem=<hex> ; prog=<hex>` -/
 def run (line : String) : String :=
